@@ -120,6 +120,7 @@ pub fn worker_main(prop: &'static dyn Prop, worker_id: usize, jail: Option<PathB
     // every run starts from the same per-thread hash-key counter
     let _ = crate::props::gen::sdk_commands();
     let _ = crate::props::gen::script_command_names();
+    prop.warm_up();
     let env = Arc::new(WorkerEnv {
         worker_id,
         jail_root,
